@@ -461,3 +461,70 @@ package ro
 //@ func NewAsyncSubject
 //@   props C10
 //@   ensures [starts-open-without-a-value|C10] result.status == 0 && result.hasValue == false && result.observerIndex == 0
+
+// The two views of a subject are the subject itself; the observer count reads the registry.
+
+//@ func (*publishSubjectImpl).AsObservable
+//@   props C10 C11
+//@   binds s
+//@   scope err mu observerIndex observers s status
+//@   ensures [the-subject-itself|C10,C11] result == s
+
+//@ func (*publishSubjectImpl).AsObserver
+//@   props C10 C11
+//@   binds s
+//@   scope err mu observerIndex observers s status
+//@   ensures [the-subject-itself|C10,C11] result == s
+
+//@ func (*behaviorSubjectImpl).AsObservable
+//@   props C10 C11
+//@   binds s
+//@   scope err last mu observerIndex observers s status
+//@   ensures [the-subject-itself|C10,C11] result == s
+
+//@ func (*behaviorSubjectImpl).AsObserver
+//@   props C10 C11
+//@   binds s
+//@   scope err last mu observerIndex observers s status
+//@   ensures [the-subject-itself|C10,C11] result == s
+
+//@ func (*replaySubjectImpl).AsObservable
+//@   props C10 C11
+//@   binds s
+//@   scope bufferSize err mu observerIndex observers s status values
+//@   ensures [the-subject-itself|C10,C11] result == s
+
+//@ func (*replaySubjectImpl).AsObserver
+//@   props C10 C11
+//@   binds s
+//@   scope bufferSize err mu observerIndex observers s status values
+//@   ensures [the-subject-itself|C10,C11] result == s
+
+//@ func (*asyncSubjectImpl).AsObservable
+//@   props C10 C11
+//@   binds s
+//@   scope err hasValue mu observerIndex observers s status value
+//@   ensures [the-subject-itself|C10,C11] result == s
+
+//@ func (*asyncSubjectImpl).AsObserver
+//@   props C10 C11
+//@   binds s
+//@   scope err hasValue mu observerIndex observers s status value
+//@   ensures [the-subject-itself|C10,C11] result == s
+
+//@ func (*unicastSubjectImpl).AsObservable
+//@   props C10 C11
+//@   binds s
+//@   scope bufferSize err mu observer s status values
+//@   ensures [the-subject-itself|C10,C11] result == s
+
+//@ func (*unicastSubjectImpl).AsObserver
+//@   props C10 C11
+//@   binds s
+//@   scope bufferSize err mu observer s status values
+//@   ensures [the-subject-itself|C10,C11] result == s
+
+//@ func (*unicastSubjectImpl).CountObservers
+//@   props C10
+//@   ensures [one-when-attached-else-none|C10] result == ite(atlock(observer) != nil, 1, 0) && count(lock.mu) == 1
+
